@@ -65,6 +65,44 @@ int main() {
         std::cout << " x";
         for (Index i = 0; i < h->getNBins(); ++i) std::cout << " " << h->data().x(i);
         std::cout << std::endl;
+      } else if (cmd == "legacyx") {
+        // legacyx <n> <periodic> <normalize> <scale> <cnt2> v2... <cnt> v...
+        // one legacy Histogram object with automatic range; if cnt2 > 0 it first processes the data v2 (object reuse)
+        Histogram::options_t op;
+        int per, norm;
+        long cnt2, cnt;
+        std::string scale;
+        in >> op.n_ >> per >> norm >> scale >> cnt2;
+        op.auto_interval_ = true;
+        op.periodic_ = per;
+        op.normalize_ = norm;
+        op.scale_ = scale;
+        DataCollection<double> dc;
+        DataCollection<double>::array *a2 = dc.CreateArray("a2");
+        for (long i = 0; i < cnt2; ++i) {
+          double v;
+          in >> v;
+          a2->push_back(v);
+        }
+        in >> cnt;
+        DataCollection<double>::array *a = dc.CreateArray("a");
+        for (long i = 0; i < cnt; ++i) {
+          double v;
+          in >> v;
+          a->push_back(v);
+        }
+        Histogram hist(op);
+        if (cnt2 > 0) {
+          DataCollection<double>::selection sel2;
+          sel2.push_back(a2);
+          hist.ProcessData(&sel2);
+        }
+        DataCollection<double>::selection sel;
+        sel.push_back(a);
+        hist.ProcessData(&sel);
+        std::cout << "legacy " << hist.getMin() << " " << hist.getMax() << " " << hist.getInterval();
+        for (double p : hist.getPdf()) std::cout << " " << p;
+        std::cout << std::endl;
       } else if (cmd == "legacy") {
         // legacy <n> <auto> <min> <max> <periodic> <normalize> <count> v...
         Histogram::options_t op;
